@@ -38,6 +38,7 @@ struct PlanT {
     uint64_t content_seed = 0;
     int sessions = 1;
     int relation[3] = {0, 0, 0}; // session i vs session 0: 0 independent, 1 same key, 2 same header, 3 twin (both)
+    uint32_t state_align = 0;    // two 4-bit offsets: where the sender's / receiver's state object sits modulo 16
     uint32_t start_counter = 0;  // both ends' chunk counter := this value right after init (0 = leave at 1): simulates a long-lived stream
     std::vector<Op> ops;
 };
@@ -50,7 +51,12 @@ struct Item {
 
 struct Sess {
     unsigned char key[32], header[24];
-    crypto_secretstream_xchacha20poly1305_state push_st, pull_st;
+    // the two state objects live at a per-plan offset inside 16-byte aligned storage (callers put them anywhere)
+    alignas(16) unsigned char push_raw[sizeof(crypto_secretstream_xchacha20poly1305_state) + 16];
+    alignas(16) unsigned char pull_raw[sizeof(crypto_secretstream_xchacha20poly1305_state) + 16];
+    crypto_secretstream_xchacha20poly1305_state *push_p = nullptr, *pull_p = nullptr;
+    crypto_secretstream_xchacha20poly1305_state &ps() { return *push_p; }
+    crypto_secretstream_xchacha20poly1305_state &pl() { return *pull_p; }
     ref::StreamState model_push;
     std::vector<ref::StreamState> states; // states[i] = model state before log item i
     std::vector<Item> log;
@@ -95,6 +101,8 @@ struct Exec {
         ss.resize((size_t) plan.sessions);
         for (int i = 0; i < plan.sessions; i++) {
             Sess &s = ss[(size_t) i];
+            s.push_p = (crypto_secretstream_xchacha20poly1305_state *) (s.push_raw + (plan.state_align & 15));
+            s.pull_p = (crypto_secretstream_xchacha20poly1305_state *) (s.pull_raw + ((plan.state_align >> 4) & 15));
             s.relation = i == 0 ? 0 : plan.relation[i];
             ref::Bytes k, h;
             content(k, 32, 0x1000 + (uint64_t) i); content(h, 24, 0x2000 + (uint64_t) i);
@@ -105,18 +113,18 @@ struct Exec {
             g_src.reset(plan.content_seed);
             g_src.script.assign(h.begin(), h.end());
             unsigned char hdr[24];
-            { LibScope l; crypto_secretstream_xchacha20poly1305_init_push(&s.push_st, hdr, s.key); }
+            { LibScope l; crypto_secretstream_xchacha20poly1305_init_push(&s.ps(), hdr, s.key); }
             memcpy(s.header, hdr, 24);
             if (memcmp(hdr, h.data(), 24) != 0) res.fail("header-not-from-source", "init_push", "header differs from the bytes served by the random source", step);
-            { LibScope l; crypto_secretstream_xchacha20poly1305_init_pull(&s.pull_st, s.header, s.key); }
+            { LibScope l; crypto_secretstream_xchacha20poly1305_init_pull(&s.pl(), s.header, s.key); }
             ref::stream_init(s.model_push, s.header, s.key);
-            if (!real_eq_model(s.push_st, s.model_push)) res.fail("state-desync", "init_push", "state after init_push differs from the documented construction", step);
-            if (!real_eq_model(s.pull_st, s.model_push)) res.fail("state-desync", "init_pull", "state after init_pull differs from the documented construction", step);
+            if (!real_eq_model(s.ps(), s.model_push)) res.fail("state-desync", "init_push", "state after init_push differs from the documented construction", step);
+            if (!real_eq_model(s.pl(), s.model_push)) res.fail("state-desync", "init_pull", "state after init_pull differs from the documented construction", step);
             if (plan.start_counter) {
                 uint32_t c = plan.start_counter;
                 ref::st32(s.model_push.nonce, c);
-                ref::st32(s.push_st.nonce, c);
-                ref::st32(s.pull_st.nonce, c);
+                ref::st32(s.ps().nonce, c);
+                ref::st32(s.pl().nonce, c);
             }
             s.states.push_back(s.model_push);
             dg.add(s.header, 24);
@@ -126,9 +134,9 @@ struct Exec {
     // receiver applies pending rekey control records
     void apply_controls(Sess &s) {
         while (s.accepted < s.log.size() && s.log[s.accepted].is_rekey) {
-            { LibScope l; crypto_secretstream_xchacha20poly1305_rekey(&s.pull_st); }
+            { LibScope l; crypto_secretstream_xchacha20poly1305_rekey(&s.pl()); }
             s.accepted++;
-            if (!real_eq_model(s.pull_st, s.states[s.accepted])) res.fail("state-desync", "pull-rekey", "receiver state after explicit rekey differs from model", step);
+            if (!real_eq_model(s.pl(), s.states[s.accepted])) res.fail("state-desync", "pull-rekey", "receiver state after explicit rekey differs from model", step);
         }
     }
 
@@ -156,7 +164,7 @@ struct Exec {
         int rc;
         {
             LibScope l;
-            rc = crypto_secretstream_xchacha20poly1305_push(&s.push_st, out.p, op.null_outlen ? nullptr : &outlen, m.p, it.m.size(),
+            rc = crypto_secretstream_xchacha20poly1305_push(&s.ps(), out.p, op.null_outlen ? nullptr : &outlen, m.p, it.m.size(),
                                                             (op.null_ad && it.ad.empty()) ? nullptr : ad.p, it.ad.size(), it.tag);
         }
         const char *ctx = context_of(s, before);
@@ -165,7 +173,7 @@ struct Exec {
         it.chunk.assign(out.p, out.p + out.n);
         if (it.chunk != expect)
             res.fail("chunk-mismatch", ctx, "chunk differs from the documented ChaCha20-Poly1305 construction (mlen=" + std::to_string(op.mlen) + " adlen=" + std::to_string(op.adlen) + " tag=" + std::to_string(it.tag) + ")", step);
-        if (!real_eq_model(s.push_st, s.model_push)) res.fail("state-desync", std::string("push/") + ctx, "sender state differs from model after push", step);
+        if (!real_eq_model(s.ps(), s.model_push)) res.fail("state-desync", std::string("push/") + ctx, "sender state differs from model after push", step);
         dg.add(it.chunk.data(), it.chunk.size());
         s.log.push_back(it);
         s.states.push_back(s.model_push);
@@ -174,9 +182,9 @@ struct Exec {
 
     void do_rekey(const Op &op) {
         Sess &s = ss[(size_t) (op.s % plan.sessions)];
-        { LibScope l; crypto_secretstream_xchacha20poly1305_rekey(&s.push_st); }
+        { LibScope l; crypto_secretstream_xchacha20poly1305_rekey(&s.ps()); }
         ref::stream_rekey(s.model_push);
-        if (!real_eq_model(s.push_st, s.model_push)) res.fail("state-desync", "rekey", "sender state differs from model after explicit rekey", step);
+        if (!real_eq_model(s.ps(), s.model_push)) res.fail("state-desync", "rekey", "sender state differs from model after explicit rekey", step);
         Item it; it.is_rekey = true;
         s.log.push_back(it);
         s.states.push_back(s.model_push);
@@ -195,8 +203,8 @@ struct Exec {
         if (genuine_next && !expect_ok) { res.fail("harness-model", "model-rejects-genuine", "reference model rejects the genuine next chunk", step); return; }
         bool on_clone = expect_ok && !genuine_next; // only possible for twin streams / identical chunks
         if (on_clone) res.count("probe.twin_cross_accept");
-        crypto_secretstream_xchacha20poly1305_state clone = dst.pull_st;
-        crypto_secretstream_xchacha20poly1305_state *st = on_clone ? &clone : &dst.pull_st;
+        crypto_secretstream_xchacha20poly1305_state clone = dst.pl();
+        crypto_secretstream_xchacha20poly1305_state *st = on_clone ? &clone : &dst.pl();
         crypto_secretstream_xchacha20poly1305_state before = *st;
         size_t al = op.align;
         Exact in(bytes.data(), bytes.size(), al & 15), adb(ad.data(), ad.size(), (al >> 4) & 15);
@@ -343,7 +351,7 @@ struct Exec {
             }
             if (res.violated) return;
             if (deliveries != outstanding) res.fail("heal-failed", "heal-count", "delivered " + std::to_string(deliveries) + " of " + std::to_string(outstanding), step);
-            if (memcmp(s.push_st.k, s.pull_st.k, 32) != 0 || memcmp(s.push_st.nonce, s.pull_st.nonce, 12) != 0)
+            if (memcmp(s.ps().k, s.pl().k, 32) != 0 || memcmp(s.ps().nonce, s.pl().nonce, 12) != 0)
                 res.fail("state-desync", "final", "sender and receiver states differ after the whole sequence was delivered", step);
             res.count("probe.healed_sessions");
             if (outstanding) res.count("probe.healed_with_backlog");
@@ -364,7 +372,7 @@ struct Exec {
         }
         step = (int) plan.ops.size();
         if (!res.violated) heal();
-        for (auto &s : ss) { dg.add(s.pull_st.k, 32); dg.add(s.pull_st.nonce, 12); dg.add((uint64_t) s.accepted); }
+        for (auto &s : ss) { dg.add(s.pl().k, 32); dg.add(s.pl().nonce, 12); dg.add((uint64_t) s.accepted); }
         res.digest = dg.value();
         res.nontrivial = any_fault;
         res.count(std::string("knob.cpu_disable=") + cpu_mask_name((unsigned) plan.pk.at("cpu_disable").u64()));
@@ -427,6 +435,7 @@ struct C09 {
         p.pk = pk;
         p.content_seed = mix64(rs, 0xc0117e17);
         p.sessions = (int) (knobs.below(10) < 5 ? 1 : knobs.below(10) < 7 ? 2 : 3);
+        p.state_align = (uint32_t) knobs.below(256);
         for (int i = 1; i < 3; i++) p.relation[i] = (int) knobs.below(4);
         {
             // 1, or shortly before a boundary of the little-endian counter: full wrap (automatic rekey), and
@@ -486,7 +495,7 @@ struct C09 {
         j["knobs"] = p.pk;
         j["content_seed"] = p.content_seed; j["sessions"] = p.sessions;
         Json rel = Json::array(); for (int i = 0; i < 3; i++) rel.push(p.relation[i]);
-        j["relation"] = rel; j["start_counter"] = p.start_counter;
+        j["relation"] = rel; j["start_counter"] = p.start_counter; j["state_align"] = p.state_align;
         Json ops = Json::array();
         for (auto &o : p.ops) {
             Json q = Json::object();
@@ -517,7 +526,7 @@ struct C09 {
         if (p.sessions < 1) p.sessions = 1;
         if (p.sessions > 3) p.sessions = 3;
         for (size_t i = 0; i < 3 && i < j.at("relation").a.size(); i++) p.relation[i] = (int) j.at("relation").a[i].i64();
-        p.start_counter = (uint32_t) j.at("start_counter").u64();
+        p.start_counter = (uint32_t) j.at("start_counter").u64(); p.state_align = (uint32_t) j.at("state_align").u64();
         for (auto &q : j.at("ops").a) {
             Op o;
             std::string k = q.at("op").str();
@@ -550,6 +559,7 @@ struct C09 {
         auto push = [&](const Plan &c) { out.push_back(c); };
         if (p.pk.at("cpu_disable").u64() != 0) { Plan c = p; c.pk["cpu_disable"] = 0u; push(c); }
         if (p.start_counter) { Plan c = p; c.start_counter = 0; push(c); }
+        if (p.state_align) { Plan c = p; c.state_align = 0; push(c); }
         if (p.start_counter && p.start_counter != 0xffffffffu) { Plan c = p; c.start_counter = 0xffffffffu; push(c); }
         if (p.sessions > 1) { Plan c = p; c.sessions--; push(c); }
         for (int i = 1; i < 3; i++) if (p.relation[i]) { Plan c = p; c.relation[i] = 0; push(c); }
